@@ -47,6 +47,16 @@ fn to_msg(rng: &mut Rng, recs: &[Rec]) -> Msg {
             m.additionals.push(r.clone());
         }
     }
+    // mixed with records of other names: the announcement of a service of another (not browsed) type follows ours
+    // in the same packet
+    if has_ptr && rng.below(4) == 0 {
+        let oty = Name::from_dotted("_workstation._tcp.local.");
+        let oinst = Name::from_dotted("ws._workstation._tcp.local.");
+        m.answers.push(Rec::ptr(&oty, &oinst, 4500));
+        if rng.bool() {
+            m.answers.push(Rec::txt(&oinst, vec![0], 4500, true));
+        }
+    }
     m
 }
 
